@@ -64,15 +64,19 @@ func (b *evBackend) SendEvent(ctx context.Context, e *gostatsd.Event) error {
 	vsched.Access(b.r.logObj, true, "send-event-begin")
 	b.inFly++
 	b.r.totalBegun++
-	ev := *e
-	ev.Tags = append(gostatsd.Tags{}, e.Tags...)
-	b.got = append(b.got, ev)
 	if b.inFly > b.r.maxInFly {
 		b.r.maxInFly = b.inFly
 	}
+	ev := *e
+	ev.Tags = append(gostatsd.Tags{}, e.Tags...)
 	vsched.Access(b.r.logObj, true, "send-event-end") // a scheduling point inside the call: it takes time
 	b.inFly--
 	b.r.totalDone++
+	// like an HTTP backend, the send is abandoned when its context is cancelled before it completes
+	if err := ctx.Err(); err != nil {
+		return err
+	}
+	b.got = append(b.got, ev)
 	return nil
 }
 
